@@ -34,7 +34,7 @@ theorem finishRecording_store (ao : AliasOracle) (cfg : OpCfg) (s : St) (excFlag
       obtain ⟨s3, tEnd⟩ := q
       have h9' : s3.store = s.store := by rw [ht.2.2.2.2.2.2.2.2.1]; exact h9
       unfold saveRecording
-      by_cases hsf : cfg.saveFails = true
+      by_cases hsf : cfg.saveFailsOn a.data = true
       · left; simp [hsf, addLog, h9']
       · right
         exact ⟨a, postMeta ao cfg a.data excFlag ((tEnd : Int) - (tStart : Int)), rfl, by simp [hsf, addLog, h9']⟩
